@@ -24,14 +24,14 @@ from harness.common.shrink import ddmin
 from harness.props import c05_facts
 
 PROP = "C05"
-DRIVER_MODULES = ["PsutilModel.Model.C05Gen", "PsutilModel.Spec.C05", "PsutilModel.Spec.C05Stat"]
+DRIVER_MODULES = ["PsutilModel.Model.C05Gen", "PsutilModel.Spec.C05", "PsutilModel.Spec.C05Stat", "PsutilModel.Spec.C05Dyn"]
 NEEDS_EXT = True
 TRUSTED = [
     "C05 world: a call sees (a) the table when the caller's identity is checked and ppid_map() runs, (b) a possibly different table for the per-child look-ups; kernel events happen between psutil's file reads, not inside one (DESIGN §4.6). parent()/parents(): every look-up (identity check, own stat, Process(ppid)) of every step has its own world",
     "C05 times: create_time() is a float `starttime/CLOCK_TICKS + boot_time`; the model compares the integer starttime ticks. The harness checks on every run that this float map is strictly increasing over the tick range it uses",
     "C05 stat renderer (Spec/C05Stat.lean): transcription of the documented /proc/<pid>/stat layout; the Python renderer of the harness is checked byte-for-byte against it on every stat case",
     "C05 errors: a stat read is gone / unreadable (EACCES, injected at psutil's open_binary) / read; `Process(pid)` and the `create_time()` that follows are one look-up; the caller object is built on a readable stat; the ENOENT-then-zombie two-read race of wrap_exceptions (ZombieProcess) is not modelled (C03)",
-    "C05 parents() while the table changes: the worlds of each look-up are those the harness recorded at its hooks (construction of _pslinux.Process, _proc.ppid()); the equality of Model/C05Dyn with Model/C05 on static readable tables for parent()/parents() is tested on every such case (driver flag old_agrees), not proved",
+    "C05 parents() while the table changes: the worlds of each look-up are those the harness recorded at its hooks (construction of _pslinux.Process, _proc.ppid()); inside oneshot() a stat memo filled by another method is handed to the model as the table that method ran on (PStep.withStatMemo)",
 ]
 ASSUMPTIONS = [
     "listed PIDs are unique; a vanished process is a missing /proc/<pid>; an unreadable stat file exists but its open raises EACCES",
@@ -39,8 +39,8 @@ ASSUMPTIONS = [
     "int()/float() of a stat token are modelled for the decimal tokens the kernel writes",
 ]
 MANIFEST = {
-    "level_text": "Machine-checked Lean 4 proofs over a transcription of ppid_map()/children()/parent()/parents()/_raise_if_pid_reused(): for EVERY ppid map and every start-time assignment (forests, self-loops, cycles, unlisted parents, ties) children() is exactly the set of listed processes whose parent link is the caller and that are not older than it, children(recursive=True) is exactly the inductive reachability closure minus the caller, each PID once (C05_children_exact, C05_children_rec_exact, C05_nodup, C05_not_self, C05_no_older), the walk terminates on any graph (C05_terminates: a proved fuel bound; without the `seen` guard divergence is proved), parent() is the process named by ppid() unless younger (C05_parent_spec), parents() is the parent chain and terminates (C05_parents_chain, C05_parents_terminates), a caller whose incarnation is gone or whose PID was recycled gets NoSuchProcess whatever the object saw before (C05_dead_caller_NSP, C05_recycled_caller_NSP at full strength), and both stat readers recover ppid/starttime for every comm byte string (C05_stat_roundtrip). Richer world (Model/C05Dyn): any set of other processes with an unreadable or vanished stat file is left out and never fails children() (C05_unreadable_left_out[_rec], C05_unreadable_never_returned; false without the hypothesis that readable processes stay readable during the walk: C05_unreadable_mid_walk_counterexample), zombies are transparent for all calls (C05_zombie_transparent[_parents]), parents() over ANY sequence of worlds — ancestors exiting, reaped, recycled, re-parented between two parent() calls — is the step-wise chain (C05_parents_dyn_spec), each element the parent of the previous one when looked up, never younger, no PID twice (C05_parents_dyn_links), terminating within |PIDs|+2 iterations (C05_parents_dyn_terminates), ending with NoSuchProcess at an element that is no longer itself (C05_parent_dyn_dead_NSP); inside oneshot() a cached ppid is answered without identity check (C05_oneshot_parent_cached). The model is tied to the code by translator facts (the three `<=`, the seen guard, the own-PID drop, the parents() cycle stop, the identity pre-checks incl. the `_gone` test, the lowest-PID stop, rfind/index facts) feeding the proof obligations cfg_good/scfg_good, and by a differential run of the real methods over fake procfs tables, random and exhaustive.",
-    "level_note": "Trusted: Lean kernel + {propext, Classical.choice, Quot.sound}; the translator; the correspondence harness; float create_time modelled by integer ticks (monotonicity checked at run time); atomic file reads; Process(pid)+create_time() as one look-up; rich and plain model of parent()/parents() agree on static tables by test, not proof. The specification is silent (model-only comparison) where an unreadable stat file lies on the path of parent()/parents(), for an unreadable caller, for a process turning unreadable during the walk, and on a oneshot cache hit.",
+    "level_text": "Machine-checked Lean 4 proofs over a transcription of ppid_map()/children()/parent()/parents()/_raise_if_pid_reused(): for EVERY ppid map and every start-time assignment (forests, self-loops, cycles, unlisted parents, ties) children() is exactly the set of listed processes whose parent link is the caller and that are not older than it, children(recursive=True) is exactly the inductive reachability closure minus the caller, each PID once (C05_children_exact, C05_children_rec_exact, C05_nodup, C05_not_self, C05_no_older), the walk terminates on any graph (C05_terminates: a proved fuel bound; without the `seen` guard divergence is proved), parent() is the process named by ppid() unless younger (C05_parent_spec), parents() is the parent chain and terminates (C05_parents_chain, C05_parents_terminates), a caller whose incarnation is gone or whose PID was recycled gets NoSuchProcess whatever the object saw before (C05_dead_caller_NSP, C05_recycled_caller_NSP at full strength), and both stat readers recover ppid/starttime for every comm byte string (C05_stat_roundtrip). Richer world (Model/C05Dyn): any set of other processes with an unreadable or vanished stat file is left out and never fails children() (C05_unreadable_left_out[_rec], C05_unreadable_never_returned; false without the hypothesis that readable processes stay readable during the walk: C05_unreadable_mid_walk_counterexample), zombies are transparent for all calls (C05_zombie_transparent[_parents]), parents() over ANY sequence of worlds — ancestors exiting, reaped, recycled, re-parented between two parent() calls — is the step-wise chain (C05_parents_dyn_spec), each element the parent of the previous one when looked up, never younger, no PID twice (C05_parents_dyn_links), terminating within |PIDs|+2 iterations (C05_parents_dyn_terminates), ending with NoSuchProcess at an element that is no longer itself (C05_parent_dyn_dead_NSP); inside oneshot() a cached ppid is answered without identity check (C05_oneshot_parent_cached), while a stat memo filled by another method still goes through the identity check (C05_oneshot_statmemo_parent). Round 3: the rich model of parent()/parents() is proved equal to the plain one on constant readable tables for every configuration (C05_static_parent_refines, C05_static_parents_refines; formerly a run-time flag); a recycled caller gets NoSuchProcess whatever is unreadable — the new owner included (C05_dead_caller_NSP_X, C05_recycled_caller_NSP_X[_parent], C05_parents_dyn_dead_NSP); with NO hypothesis on the look-up world a value returned by children() is exact and the only other outcome is AccessDenied(c) for a process c that turned unreadable (C05_children_value_exact, C05_children_outcomes); a value returned by parent() is the right one in any worlds (C05_parent_dyn_sound). The model is tied to the code by translator facts (the three `<=`, the seen guard, the own-PID drop, the parents() cycle stop, the identity pre-checks incl. the `_gone` test, the lowest-PID stop, rfind/index facts) feeding the proof obligations cfg_good/scfg_good, and by a differential run of the real methods over fake procfs tables, random and exhaustive.",
+    "level_note": "Trusted: Lean kernel + {propext, Classical.choice, Quot.sound}; the translator; the correspondence harness; float create_time modelled by integer ticks (monotonicity checked at run time); atomic file reads; Process(pid)+create_time() as one look-up. The specification is silent (model-only comparison) about WHICH exception an unreadable stat file on the path of parent()/parents() produces, about a caller whose own stat file is unreadable while it is still the same incarnation (a recycled unreadable caller must get NoSuchProcess), and on a oneshot ppid() cache hit; for processes turning unreadable during the walk of children() the specification is the exact value or AccessDenied(that process).",
     "technique": "Lean 4 proof (DFS invariant + fuel bound, induction over the reachability relation, case analysis) + translator-fed proof obligations + differential correspondence on fake procfs with exhaustive small tables",
     "design_ref": "DESIGN.md §5 C05",
 }
@@ -185,7 +185,7 @@ class Impl:
         self.ps._ppid_map = self.real_ppid_map
         self.plat.Process = self.RealProc
         self.ps.Process.parent = self.real_parent
-        signal.setitimer(signal.ITIMER_REAL, 0)
+        signal.setitimer(signal.ITIMER_PROF, 0)
         self.fp.close()
 
     # ---- table on disk
@@ -195,7 +195,9 @@ class Impl:
         self.denied_paths = set()
         for row in rows:
             pid, ppid, start = row[:3]
-            want[pid] = render_stat(pid, comm_of(pid), row_state(row), ppid, PRE, start, POST)
+            # "G": /proc/<pid> is still listed, its stat file is gone (the process is exiting)
+            want[pid] = None if (len(row) > 3 and row[3] == "G") else \
+                render_stat(pid, comm_of(pid), row_state(row), ppid, PRE, start, POST)
             self.cur_rows[pid] = list(row)
             if len(row) > 3 and row[3] == "X":
                 self.denied_paths.add("%s/%d/stat" % (self.fp.root, pid))
@@ -203,9 +205,21 @@ class Impl:
             shutil.rmtree(self.fp.path(str(pid)), ignore_errors=True)
             del self.cur[pid]
         for pid, data in want.items():
-            if self.cur.get(pid) != data:
+            if data is None:
+                self._listed_gone(pid)
+            elif self.cur.get(pid) != data:
                 self.fp.write("%d/stat" % pid, data)
                 self.cur[pid] = data
+
+    def _listed_gone(self, pid):
+        if pid in self.cur and self.cur[pid] is None:
+            return
+        os.makedirs(self.fp.path(str(pid)), exist_ok=True)
+        try:
+            os.unlink(self.fp.path("%d/stat" % pid))
+        except FileNotFoundError:
+            pass
+        self.cur[pid] = None
 
     def apply_event(self, ev):
         """one kernel event while the tree is walked: [pid, None] = the process exits,
@@ -216,6 +230,9 @@ class Impl:
             shutil.rmtree(self.fp.path(str(pid)), ignore_errors=True)
             self.cur.pop(pid, None)
             self.cur_rows.pop(pid, None)
+        elif len(row) > 3 and row[3] == "G":
+            self._listed_gone(pid)
+            self.cur_rows[pid] = list(row)
         else:
             data = render_stat(pid, comm_of(pid), row_state(row), row[1], PRE, row[2], POST)
             self.fp.write("%d/stat" % pid, data)
@@ -322,6 +339,17 @@ class Impl:
             self.expect = "par" if cached else "id"
             if cached:
                 self.steps = [{}]
+        memo = case.get("statmemo_via") if dyn else None
+        if memo is not None and oneshot is not None:
+            # ANOTHER stat-based method runs first inside the block, on the table `statmemo`: it fills the
+            # memoised _parse_stat_file() of the caller's platform object; ppid() itself is not called
+            self.set_table(case["statmemo"])
+            try:
+                getattr(p, memo)()
+                extra["statmemo"] = "filled"
+            except Exception as e:
+                extra["statmemo"] = type(e).__name__
+            self.set_table(case["t0"])
         if dyn and call in ("parent", "parents"):
             fuel = len(case["t0"]) + len(case.get("events") or []) + 2
             for k, pid_, row in case.get("events") or []:
@@ -345,14 +373,34 @@ class Impl:
                 return r
             ps._ppid_map = snap
 
+        if dyn and call in ("children", "children_rec"):
+            # ppid_map() fills its dict in os.listdir() order and the walk follows it: which of two unreadable
+            # processes is met first (AccessDenied(pid)) depends on it, so the model gets the rows in that order
+            try:
+                order = [int(x) for x in os.listdir(self.fp.root) if x.isdigit()]
+                by = {r[0]: r for r in case["t0"]}
+                if sorted(order) == sorted(by):
+                    extra["t0_listed"] = [list(by[q]) for q in order]
+            except OSError:
+                pass
+
         def on_alarm(*a):
             raise _Budget()
-        old = signal.signal(signal.SIGALRM, on_alarm)
-        signal.setitimer(signal.ITIMER_REAL, 10.0)
+        # last-resort guard behind the step budgets: 20 s of CPU time of this process (a busy loop burns CPU;
+        # wall-clock time would turn an overloaded machine into spurious `diverged` observations)
+        old = signal.signal(signal.SIGPROF, on_alarm)
+        signal.setitimer(signal.ITIMER_PROF, 20.0)
         try:
             if call == "children" or call == "children_rec":
-                ret = p.children(recursive=(call == "children_rec"))
-                signal.setitimer(signal.ITIMER_REAL, 0)
+                # every spelling of the argument: the default, keyword and positional forms
+                style = (case["pid"] + len(case["t0"])) % 3
+                if call == "children":
+                    ret = p.children() if style != 2 else p.children(recursive=False)
+                else:
+                    ret = p.children(recursive=True) if style != 2 else p.children(True)
+                extra["call_style"] = ("default" if style != 2 else "recursive=False") if call == "children" else \
+                    ("recursive=True" if style != 2 else "positional True")
+                signal.setitimer(signal.ITIMER_PROF, 0)
                 self.counter[1] = None
                 # every returned object as [pid, its create_time in ticks]: it must be the incarnation listed NOW
                 obs = {"kind": "ok", "procs": sorted([c.pid, self.to_ticks(c.create_time())] for c in ret)}
@@ -366,12 +414,12 @@ class Impl:
                 extra["older"] = older
             elif call == "parent":
                 r = p.parent()
-                signal.setitimer(signal.ITIMER_REAL, 0)
+                signal.setitimer(signal.ITIMER_PROF, 0)
                 self.counter[1] = None
                 obs = {"kind": "ok", "parent": None if r is None else [r.pid, self.to_ticks(r.create_time())]}
             elif call == "parents":
                 r = p.parents()
-                signal.setitimer(signal.ITIMER_REAL, 0)
+                signal.setitimer(signal.ITIMER_PROF, 0)
                 self.counter[1] = None
                 obs = {"kind": "ok", "chain": [[q.pid, self.to_ticks(q.create_time())] for q in r]}
             else:
@@ -381,8 +429,8 @@ class Impl:
         except Exception as e:  # every exception is an observable
             obs = self.exc(e)
         finally:
-            signal.setitimer(signal.ITIMER_REAL, 0)
-            signal.signal(signal.SIGALRM, old)
+            signal.setitimer(signal.ITIMER_PROF, 0)
+            signal.signal(signal.SIGPROF, old)
             self.counter[1] = None
             self.after_snapshot = False
             self.hook_mode = None
@@ -741,8 +789,8 @@ def judge_dyn(case, obs, extra, m, res, source, record=True):
         return dis("model", obs, "driver: specification saturation did not close (harness/spec bug)")
     if obs.get("kind") == "harness":
         return dis("model", obs, "harness could not build the Process object")
-    if not m.get("old_agrees", True):
-        return dis("model", obs, "Model/C05Dyn.lean differs from Model/C05.lean on a static, readable table")
+    if case.get("statmemo_via") and extra.get("statmemo") != "filled":
+        return dis("model", {"statmemo": extra.get("statmemo")}, "harness: the stat memo could not be filled inside oneshot()")
     if extra.get("older"):
         return dis("spec", {"older_than_caller": extra["older"], "out": obs},
                    "children() returned a process that started before the caller")
@@ -753,18 +801,29 @@ def judge_dyn(case, obs, extra, m, res, source, record=True):
         if case.get("lowest") is not None and case["lowest"] != min_pid(case["t0"]):
             spec_applies = False
             res.count("model_only:stale_lowest") if record else None
+    alt = m.get("alt_denied") or []
+    if spec_applies and alt and record:
+        res.count("spec_disjunctive:unreadable_mid_walk:%s" % ("access_denied" if obs.get("exc") == "AccessDenied" else "value"))
     if spec_applies and obs != sp:
-        return dis("spec", obs, "%s(): implementation differs from the specification (richer world)" % case["call"])
+        # processes turned unreadable while children() walked: the value must be exact, or AccessDenied(c)
+        # escapes for a c that was readable at the snapshot and is unreadable when examined (C05_children_outcomes)
+        if not (alt and obs.get("kind") == "exc" and obs.get("exc") == "AccessDenied" and obs.get("pid") in alt):
+            return dis("spec", obs, "%s(): implementation differs from the specification (richer world)" % case["call"])
     if obs != mo:
         return dis("model", obs, "%s(): implementation differs from the Lean model (richer world)" % case["call"])
     return None
 
 
-def mk_dyn(call, pid, t0, mk=None, events=None, oneshot=None, via_iter=False, pids_call=None, family=""):
+def mk_dyn(call, pid, t0, mk=None, events=None, oneshot=None, via_iter=False, pids_call=None, family="",
+           statmemo=None, via="name"):
     x = lambda rows: [list(r) if len(r) > 3 else list(r) + ["R"] for r in rows]
     c = {"op": "dyn", "call": call, "pid": pid, "mk": x(t0 if mk is None else mk), "mid": None, "lowest": None,
          "t0": x(t0), "t1": None, "steps": None, "oneshot": (x(oneshot) if isinstance(oneshot, list) else oneshot),
          "pids_call": pids_call, "family": family}
+    if statmemo is not None:
+        c["oneshot"] = "fresh"
+        c["statmemo"] = x(statmemo)
+        c["statmemo_via"] = via
     if events:
         c["events"] = [[k, p_, (None if r is None else (list(r) if len(r) > 3 else list(r) + ["R"]))] for k, p_, r in events]
     if via_iter:
@@ -790,7 +849,8 @@ def gen_dyn_cases(rng, n):
     def add(c, tag):
         cases.append(c)
         tags.append(tag)
-    fams = ["zombie", "denied_static", "denied_mid_walk", "parents_dyn", "parents_dyn", "oneshot", "via_iter", "denied_caller"]
+    fams = ["zombie", "denied_static", "denied_mid_walk", "parents_dyn", "parents_dyn", "oneshot", "via_iter", "denied_caller",
+            "oneshot_statmemo", "denied_mid_walk", "listed_gone"]
     for i in range(n):
         fam = fams[i % len(fams)]
         rows = gen_table(rng, ["forest", "forest", "random", "cycle", "unlisted"][i % 5])
@@ -801,7 +861,7 @@ def gen_dyn_cases(rng, n):
         row = {r[0]: r for r in rows}
         deep = max(pids, key=lambda q: len(chain_of(rows, q)))
         callers = pick_callers(rng, rows, 2)
-        if fam in ("parents_dyn", "oneshot") and deep not in callers:
+        if fam in ("parents_dyn", "oneshot", "oneshot_statmemo") and deep not in callers:
             callers[0] = deep
         for pid in callers:
             others = [q for q in pids if q != pid]
@@ -817,16 +877,59 @@ def gen_dyn_cases(rng, n):
                 mk = [r + ["R"] for r in rows]
                 for call in CALLS:
                     add(mk_dyn(call, pid, t0, mk=mk, family="dyn/denied_static"), "dyn/denied_static")
-            elif fam == "denied_caller":
-                t0 = [r + ["X" if r[0] == pid else "R"] for r in rows]
+            elif fam == "listed_gone":
+                # processes that exit between pids() and the read of their stat file: /proc/<pid> is listed, the
+                # stat file is gone (children, parents, ancestors, sometimes a PID lower than every live one)
+                g = set(q for q in others if rng.random() < 0.4)
+                if others and not g:
+                    g = {rng.choice(others)}
+                t0 = [r + ["G" if r[0] in g else rng.choice(["R", "R", "Z"])] for r in rows]
+                if rng.random() < 0.3:
+                    t0.append([0, 0, 0, "G"])
                 mk = [r + ["R"] for r in rows]
                 for call in CALLS:
-                    add(mk_dyn(call, pid, t0, mk=mk, family="dyn/denied_caller"), "dyn/denied_caller")
+                    add(mk_dyn(call, pid, t0, mk=mk, family="dyn/listed_gone"), "dyn/listed_gone")
+            elif fam == "denied_caller":
+                # the caller's own stat file is unreadable at call time — the same incarnation underneath, or
+                # (second half) the PID was recycled meanwhile and it is the NEW owner that cannot be read
+                recyc = rng.random() < 0.5
+                t0 = [([r[0], rng.choice([r[1], 0] + pids), r[2] + rng.choice([1, 2, 7])] if (recyc and r[0] == pid) else r)
+                      + ["X" if r[0] == pid else rng.choice(["R", "R", "R", "Z", "X"])] for r in rows]
+                mk = [r + ["R"] for r in rows]
+                tag = "dyn/denied_caller_recycled" if recyc else "dyn/denied_caller"
+                for call in CALLS:
+                    add(mk_dyn(call, pid, t0, mk=mk, family=tag), tag)
+            elif fam == "oneshot_statmemo":
+                # inside oneshot() another stat-based method fills the memoised stat file on an EARLIER table;
+                # then the table changes (re-parenting, parent exits / is recycled, the caller itself recycled)
+                me = row[pid]
+                kind = rng.random()
+                pre = [list(r) for r in rows]
+                if kind < 0.3:
+                    t0 = [[r[0], (rng.choice([min(pids), 0] + pids) if r[0] == pid else r[1]), r[2]] for r in rows]    # re-parented
+                elif kind < 0.5:
+                    t0 = [r for r in rows if r[0] != me[1] or r[0] == pid]                                             # parent exits
+                elif kind < 0.7:
+                    t0 = [r if (r[0] != me[1] or r[0] == pid) else [r[0], r[1], max(0, r[2] + rng.choice([-1, 1, 40]))] for r in rows]  # parent PID reused
+                elif kind < 0.85:
+                    t0 = [r if r[0] != pid else [pid, rng.choice(pids + [0]), me[2] + rng.choice([1, 3])] for r in rows]   # caller recycled
+                else:
+                    pre = older_table(rng, rows, set())
+                    pre = [r for r in pre if r[0] != pid] + [[pid, rng.choice(pids + [0]), me[2]]]
+                    t0 = rows
+                via = rng.choice(["name", "status", "cpu_times", "cpu_num"])
+                for call in CALLS:
+                    add(mk_dyn(call, pid, t0, mk=pre, statmemo=pre, via=via, family="dyn/oneshot_statmemo"), "dyn/oneshot_statmemo")
             elif fam == "denied_mid_walk":
                 evs = []
+                below = [q for q in others if pid in chain_of(rows, q)]
                 for _ in range(rng.randrange(1, 3)):
-                    x = row[rng.choice(others)] if others else row[pid]
-                    evs.append([rng.randrange(1, len(rows) + 1), x[0], list(x[:3]) + ["X"]])
+                    # mostly a descendant of the caller (a look-up the walk will make), early in the walk
+                    if below and rng.random() < 0.75:
+                        x, k = row[rng.choice(below)], rng.choice([1, 1, 2, 3])
+                    else:
+                        x, k = (row[rng.choice(others)] if others else row[pid]), rng.randrange(1, len(rows) + 1)
+                    evs.append([k, x[0], list(x[:3]) + ["X"]])
                 for call in ("children", "children_rec"):
                     add(mk_dyn(call, pid, rows, events=[list(e) for e in evs], family="dyn/denied_mid_walk"), "dyn/denied_mid_walk")
             elif fam == "parents_dyn":
@@ -843,8 +946,10 @@ def gen_dyn_cases(rng, n):
                         evs.append([k, tgt, [tgt, rng.choice(pids + [0]), max(0, r0[2] + rng.choice([-2, -1, 1, 3, 50]))]])  # PID reused
                     elif kind < 0.8:
                         evs.append([k, tgt, [tgt, rng.choice([min(pids), 0, rng.choice(pids)]), r0[2]]])   # re-parented
-                    elif kind < 0.9:
+                    elif kind < 0.85:
                         evs.append([k, tgt, list(r0[:3]) + ["Z"]])                               # turns zombie
+                    elif kind < 0.92:
+                        evs.append([k, tgt, list(r0[:3]) + ["G"]])                               # exiting: listed, stat gone
                     else:
                         evs.append([k, tgt, list(r0[:3]) + ["X"]])                               # turns unreadable
                 for call in ("parent", "parents"):
@@ -900,12 +1005,30 @@ def dyn_corpus():
         cases.append(mk_dyn(call, 30, w0, events=[[6, 10, [10, 1, 9]]], family="corpus:parents-grandparent-reused-younger"))
         cases.append(mk_dyn(call, 30, w0, oneshot=w0, family="corpus:oneshot-cached"))
         cases.append(mk_dyn(call, 30, [[1, 0, 1], [10, 1, 5], [30, 1, 9]], mk=w0, oneshot=w0, family="corpus:oneshot-reparented-inside"))
+        # Props (round 3): the stat memo shows parent 20; meanwhile 10 exited and 30 was re-parented to 1 / PID 20 was
+        # reused by a younger process / PID 30 itself was recycled inside the block
+        cases.append(mk_dyn(call, 30, [[1, 0, 1], [20, 1, 8], [30, 20, 9]], mk=w0, statmemo=w0, family="corpus:statmemo-reparented"))
+        cases.append(mk_dyn(call, 30, [[1, 0, 1], [10, 1, 5], [20, 1, 50], [30, 1, 9]], mk=w0, statmemo=w0, via="status", family="corpus:statmemo-parent-reused"))
+        cases.append(mk_dyn(call, 30, [[1, 0, 1], [30, 1, 77]], mk=w0, statmemo=w0, via="cpu_times", family="corpus:statmemo-caller-recycled"))
+    # Props (round 3): the caller's PID 5 was recycled and the NEW owner is unreadable / a zombie: NoSuchProcess(5)
+    t = [[1, 0, 1], [5, 1, 10], [6, 5, 20]]
+    for call in CALLS:
+        cases.append(mk_dyn(call, 5, [[1, 0, 1, "R"], [5, 1, 15, "X"], [6, 5, 20, "R"]], mk=t, family="corpus:recycled-unreadable-caller"))
+        cases.append(mk_dyn(call, 5, [[1, 0, 1, "R"], [5, 1, 15, "Z"], [6, 5, 20, "R"]], mk=t, family="corpus:recycled-zombie-caller"))
+        cases.append(mk_dyn(call, 5, [[1, 0, 1, "R"], [5, 1, 10, "X"], [6, 5, 20, "R"]], mk=t, family="corpus:unreadable-caller-same-incarnation"))
+    # Props (round 3): C05_vanishing_needs_skip — PID 6 is listed, its stat file is gone when ppid_map() gets there
+    for call in CALLS:
+        cases.append(mk_dyn(call, 1, [[1, 0, 1, "R"], [5, 1, 10, "R"], [6, 5, 20, "G"]], mk=t, family="corpus:listed-stat-gone"))
+        cases.append(mk_dyn(call, 6, [[1, 0, 1, "R"], [5, 1, 10, "G"], [6, 5, 20, "R"]], mk=t, family="corpus:listed-stat-gone"))
     return cases, [c["family"] for c in cases]
 
 
 def strip(case):
     if case.get("op") == "dyn":
-        return {k: case.get(k) for k in ("op", "call", "pid", "mk", "lowest", "t0", "t1", "steps", "oneshot")}
+        d = {k: case.get(k) for k in ("op", "call", "pid", "mk", "lowest", "t0", "t1", "steps", "oneshot")}
+        if case.get("statmemo") is not None:
+            d["statmemo"] = case["statmemo"]
+        return d
     return {k: case[k] for k in ("op", "call", "pid", "mk", "mid", "lowest", "t0", "t1")}
 
 
@@ -918,6 +1041,8 @@ def run_cases(ctx, impl, cases, res, source, record=True):
         obs, running, extra = impl.run_case(c)
         if "t1" in extra:
             c["t1"] = extra["t1"]          # events: the look-up world is known only after the run
+        if "t0_listed" in extra:
+            c["t0"] = extra["t0_listed"]   # same rows, in the order pids() listed them
         if c.get("op") == "dyn":
             c["steps"] = extra.get("steps")
             c["lowest"] = extra.get("lowest")      # what the module holds (its computation is checked by the plain cases)
@@ -1073,7 +1198,7 @@ def correspond(ctx, res):
         dc, dt = dyn_corpus()
         cases += dc
         tags += dt
-        dc, dt = gen_dyn_cases(ctx.rng, ctx.n(200, 2400))
+        dc, dt = gen_dyn_cases(ctx.rng, ctx.n(250, 3000))
         cases += dc
         tags += dt
         # ---- random
@@ -1130,16 +1255,16 @@ def correspond(ctx, res):
         # ---- exhaustive: every 2-process table × every assignment of states {running, zombie, unreadable}
         cnt = 0
         for rows in exhaustive_tables(2, [2, 3]):
-            for sts in itertools.product("RZX", repeat=2):
+            for sts in itertools.product("RZXG", repeat=2):
                 cnt += 1
                 t0 = [rows[i] + [sts[i]] for i in range(2)]
                 for i, pid in enumerate((2, 3)):
                     mkr = [list(r) for r in t0]
-                    mkr[i][3] = "R" if mkr[i][3] == "X" else mkr[i][3]      # the object is built on a readable stat
+                    mkr[i][3] = "R" if mkr[i][3] in "XG" else mkr[i][3]     # the object is built on a readable stat
                     for call in CALLS:
                         cases.append(mk_dyn(call, pid, t0, mk=mkr, family="exhaustive-states"))
                         tags.append("exhaustive-states")
-        ex_desc.append("%d (2-process table, states in {running, zombie, unreadable}²)" % cnt)
+        ex_desc.append("%d (2-process table, states in {running, zombie, unreadable, listed with the stat file gone}²)" % cnt)
         # ---- exhaustive: every 2-process table seen by process_iter() × every 2-process table seen by the call
         cnt = 0
         for old in exhaustive_tables(2, [2, 3]):
@@ -1169,7 +1294,7 @@ def correspond(ctx, res):
                 for f in feats:
                     res.count("feature:" + f)
                 res.count("table_size:%s" % ("1-3" if len(c["t0"]) <= 3 else "4-8" if len(c["t0"]) <= 8 else "9-40"))
-                res.case((c["call"], c["pid"], c["mk"], c["mid"], c["t0"], c["t1"], c["lowest"], c.get("events"), c.get("iter")), nontrivial=bool(feats),
+                res.case((c["call"], c["pid"], c["mk"], c["mid"], c["t0"], c["t1"], c["lowest"], c.get("events"), c.get("iter"), c.get("oneshot"), c.get("statmemo")), nontrivial=bool(feats),
                          sample={"family": fam, "case": strip(c)} if (a + j) in (0, 1, 30, 41, 77) else None)
         # ---- as_dict() is not a way to reach the tree methods (if it becomes one, it needs its own family)
         impl.set_table([[1, 0, 1], [4, 1, 2]])
@@ -1239,8 +1364,9 @@ def _drop(case, pids):
     def f(rows):
         return None if rows is None else [r for r in rows if r[0] not in pids or r[0] == case["pid"]]
     c = dict(case)
-    for k in ("mk", "mid", "t0", "t1"):
-        c[k] = f(case[k])
+    for k in ("mk", "mid", "t0", "t1", "statmemo"):
+        if k in case:
+            c[k] = f(case[k])
     if case.get("iter") is not None:
         c["iter"] = [r for r in case["iter"] if r[0] not in pids]
     if case.get("events"):
@@ -1256,7 +1382,7 @@ def shrink(ctx, d):
         return d
     impl = Impl(ctx)
     try:
-        allp = sorted({r[0] for k in ("mk", "mid", "t0", "t1", "iter") if case.get(k) for r in case[k]} - {case["pid"]})
+        allp = sorted({r[0] for k in ("mk", "mid", "t0", "t1", "iter", "statmemo") if case.get(k) for r in case[k]} - {case["pid"]})
         if not _fails(ctx, impl, case):
             return d
         keep = ddmin(allp, lambda ks: _fails(ctx, impl, _drop(case, set(allp) - set(ks))), max_tests=40) if len(allp) >= 2 else allp
